@@ -4,6 +4,7 @@ from __future__ import annotations
 
 import ast
 import builtins
+import string
 from collections.abc import Iterable, Mapping
 from functools import lru_cache
 from typing import Any
@@ -149,6 +150,22 @@ def parse_expression(expression: str) -> ast.AST | UndefinedType:
         return Undefined
 
 
+format_methods = {'format', 'format_map'}
+
+
+def check_format_string(fmt: str) -> None:
+    """str.format() resolves the attribute paths written in its fields at run time"""
+    try:
+        fields = list(string.Formatter().parse(fmt))
+    except ValueError as e:
+        raise SecurityError(f'Invalid format string: {fmt!r}') from e
+    for _, field_name, format_spec, _ in fields:
+        if field_name and '.__' in field_name:
+            raise SecurityError(f'Dunder access prohibited: {{{field_name}}}')
+        if format_spec:
+            check_format_string(format_spec)
+
+
 def is_eval_safe(expression: str, context: dict[str, Any]) -> bool:
     """
     Boolean wrapper for safety checks.
@@ -207,12 +224,25 @@ def _check_safe_eval_cached(
     if tree is None:
         return
 
+    checked_formats: set[int] = set()
     for node in ast.walk(tree):
         if isinstance(node, (ast.Raise, ast.Try, ast.ExceptHandler)):
             raise SecurityError(f"Exception logic forbidden: {type(node).__name__}")
 
         if isinstance(node, ast.Attribute) and node.attr.startswith('__'):
             raise SecurityError(f"Dunder access prohibited: .{node.attr}")
+
+        # NOTE: ast.walk() visits a call before the attribute it calls
+        match node:
+            case ast.Call(
+                func=ast.Attribute(value=ast.Constant(value=str() as fmt), attr=attr),
+            ) if attr in format_methods:
+                check_format_string(fmt)
+                checked_formats.add(id(node.func))
+            case ast.Attribute(attr=attr) if (
+                attr in format_methods and id(node) not in checked_formats
+            ):
+                raise SecurityError(f'.{attr} is permitted only on a string literal')
 
         if isinstance(node, ast.Name):
             if isinstance(node.ctx, ast.Load) and node.id not in context:
